@@ -227,8 +227,14 @@ def run(prop, tier, seed):
             verdict.violation("%s:%s" % (violated, json.dumps(meta[sid]["plans"], sort_keys=True)),
                               "real run rejected by SeqTrace invariant %s (scenario %s, plan %s)" % (violated, sid, meta[sid]["plans"]),
                               dict(scenario=sc, faults=meta[sid]["fpos"], trace=seg, invariant=violated))
+        # the lock state of accounts and wallets (LockState.tla): "a locked account that no configured passphrase opens yields no
+        # signature" and "a refused operation changes nothing", on model-generated operation sequences incl. restarts
+        import lockfamily
+        lock = lockfamily.phase(tier, seed, wd, info, verdict, prop)
+        if lock["drift_count"]:
+            print("DRIFT: lock-state runs differ from LockState.tla in %d place(s); first: %s" % (lock["drift_count"], lock["drift"][0]))
         rc = verdict.finish()
-        cov = dict(evaluations=len(scenarios) - len(controls), distinct_nontrivial=len(distinct),
+        cov = dict(evaluations=len(scenarios) - len(controls), distinct_nontrivial=len(distinct), lock_state=lock,
                    rule="one scenario per fault plan enumerated by TLC (FaultTable: endpoint x batch size x call site x position x fault kind) plus seeded "
                         "2-3 fault combinations; a plan counts as non-trivial when the driver reports that the planned fault actually fired at its call site "
                         "(or the structural fault - garbage record, closed store, wrong-length domain - was in place) on a request that is signed without it",
@@ -246,6 +252,9 @@ def run(prop, tier, seed):
 
 def replay(prop, path):
     obj = json.load(open(path))["replay"]
+    if obj.get("lock"):
+        import lockfamily
+        return lockfamily.replay(prop, path)
     wd = workdir(prop + "-replay")
     try:
         events, rc, err = run_driver([obj["scenario"]], wd, tag="replay")
